@@ -20,7 +20,9 @@
 //!     rejected before the payload is requested).
 //!  G  every truncation of a message (must be an error, never a value, never a panic).
 //!  H  the daemon's own publishing function (`observer::handle_connection`, via probe) for
-//!     every list shape.
+//!     every list shape; and the same function on a second thread while the harness holds the
+//!     WRITE lock of the source-snapshot map (1..=3 sources x 0..=2 servers x 2 fills x
+//!     {release unchanged, insert a source then release, remove one then release}).
 //!
 //! Oracle: the harness keeps its own model of the state (raw integers); the value read back
 //! must equal the model field by field; durations within floor(1e-9*|d|) + 1 units of 2^-32 s.
@@ -1000,6 +1002,8 @@ enum Case {
     Chunk { state: usize, write_side: bool, sched: Sched },
     Trunc { state: usize, cut: usize },
     Publish(usize, usize, usize),
+    /// publish while the harness holds the write lock of the source map: (sources, servers, fill, variant)
+    PublishLocked(usize, usize, usize, usize),
 }
 
 fn trace_of(c: &Case) -> String {
@@ -1015,6 +1019,7 @@ fn trace_of(c: &Case) -> String {
         Case::Chunk { state, write_side, sched } => format!("chunk:{state}:{}:{}", if *write_side { "w" } else { "r" }, sched_str(sched)),
         Case::Trunc { state, cut } => format!("trunc:{state}:{cut}"),
         Case::Publish(a, b, p) => format!("publish:{a}:{b}:{p}"),
+        Case::PublishLocked(a, b, p, v) => format!("publock:{a}:{b}:{p}:{v}"),
     }
 }
 
@@ -1033,6 +1038,7 @@ fn parse_case(t: &str) -> Option<Case> {
         ["chunk", st, side, s] => Case::Chunk { state: n(st)?, write_side: *side == "w", sched: parse_sched(s)? },
         ["trunc", st, c] => Case::Trunc { state: n(st)?, cut: n(c)? },
         ["publish", a, b, c] => Case::Publish(n(a)?, n(b)?, n(c)?),
+        ["publock", a, b, c, v] => Case::PublishLocked(n(a)?, n(b)?, n(c)?, n(v)?),
         _ => return None,
     })
 }
@@ -1161,7 +1167,158 @@ fn run_case(ctx: &Ctx, sh: &Shared, c: &Case) -> String {
                 }
             }
         }
+        Case::PublishLocked(a, b, p, variant) => publish_locked(ctx, &trace, *a, *b, *p, *variant),
     }
+}
+
+/// H-lock: a client is served while a source task holds the WRITE lock of the snapshot map.
+/// The harness thread takes the write lock first, then starts a second thread running the real
+/// `handle_connection` into an in-memory stream; it keeps the lock until the handler finished
+/// (only possible if the handler does not wait for the lock) or has been running for >= 50 ms,
+/// then (variant 0) releases unchanged, (1) inserts one more source and releases, (2) removes one
+/// and releases. What the client reads must be a state the daemon actually had: the map as
+/// before the writer's change or as at release. With the lock taken first the unchanged tree
+/// always waits for the release, so the verdict does not depend on timing.
+fn publish_locked(ctx: &Ctx, trace: &str, ns: usize, nv: usize, fill: usize, variant: usize) -> String {
+    use std::sync::atomic::{AtomicBool, Ordering};
+    use std::sync::{Arc, RwLock};
+    use std::time::{Duration, Instant};
+    ctx.add("transitions", 2);
+    let before = filled(ns, nv, fill, true);
+    let mut after = before.clone();
+    match variant {
+        1 => {
+            let mut extra = base_source(7);
+            extra.id = 0x4242_4242;
+            extra.name = "inserted-while-client-waits".into();
+            after.sources.push(extra);
+        }
+        2 => {
+            after.sources.pop();
+        }
+        _ => {}
+    }
+    let st = build(&before);
+    let map: HashMap<ClockId, ObservableSourceState> = st.sources.iter().map(|s| (s.id, s.clone())).collect();
+    let sources = Arc::new(RwLock::new(map));
+    let servers: Vec<ServerData> = before
+        .servers
+        .iter()
+        .map(|s| ServerData { stats: build_stats(&s.counters), config: ServerConfig::from(s.address) })
+        .collect();
+    let (_stx, srx) = tokio::sync::watch::channel(servers);
+    let (_ytx, yrx) = tokio::sync::watch::channel(st.system);
+    let now = st.program.now;
+    let (started, done) = (Arc::new(AtomicBool::new(false)), Arc::new(AtomicBool::new(false)));
+    type Out = Result<Vec<u8>, String>;
+    let result: Arc<std::sync::Mutex<Option<Out>>> = Arc::new(std::sync::Mutex::new(None));
+
+    // the "source task": holds the write lock from before the client connects
+    let mut guard = sources.write().expect("fresh lock");
+    let handler = {
+        let (sources, started, done, result) = (sources.clone(), started.clone(), done.clone(), result.clone());
+        std::thread::spawn(move || {
+            let none: Sched = vec![];
+            let mut w = SchedWriter { data: Vec::new(), calls: 0, sched: &none, deviations_applied: 0 };
+            started.store(true, Ordering::SeqCst);
+            let r = common::catch(|| drive(observer_probe::publish(&mut w, &sources, srx, yrx, now)));
+            let out: Out = match r {
+                Ok(Ok(Ok(()))) => Ok(std::mem::take(&mut w.data)),
+                other => Err(format!("{:?}", other.map(|x| x.map(|y| y.map_err(|e| e.to_string()))))),
+            };
+            *result.lock().unwrap() = Some(out);
+            done.store(true, Ordering::SeqCst);
+        })
+    };
+    let t0 = Instant::now();
+    while !started.load(Ordering::SeqCst) && t0.elapsed() < Duration::from_secs(20) {
+        std::thread::sleep(Duration::from_millis(1));
+    }
+    let t1 = Instant::now();
+    while !done.load(Ordering::SeqCst) && t1.elapsed() < Duration::from_millis(50) {
+        std::thread::sleep(Duration::from_millis(1));
+    }
+    let finished_under_lock = done.load(Ordering::SeqCst);
+    ctx.inc(if finished_under_lock { "lock_outcome_handler_finished_while_write_locked" } else { "lock_outcome_handler_waited_for_release" });
+    // the writer's change, then release
+    match variant {
+        1 => {
+            let s = build_source(after.sources.last().expect("inserted"));
+            guard.insert(s.id, s);
+        }
+        2 => {
+            if let Some(last) = before.sources.last() {
+                guard.remove(&mk_id(last.id));
+            }
+        }
+        _ => {}
+    }
+    drop(guard);
+    // dead-man: a cap, not a verdict
+    let t2 = Instant::now();
+    while !done.load(Ordering::SeqCst) && t2.elapsed() < Duration::from_secs(20) {
+        std::thread::sleep(Duration::from_millis(1));
+    }
+    if !done.load(Ordering::SeqCst) {
+        ctx.cap_hit("publish-under-write-lock: handler thread did not finish within 20 s of the release (thread leaked, case not judged)");
+        return "dead-man".into();
+    }
+    handler.join().ok();
+    let bytes = match result.lock().unwrap().take() {
+        Some(Ok(b)) => b,
+        other => {
+            let e = format!("handle_connection did not complete: {other:?}");
+            ctx.violation("C38:write-failed", e.clone(), trace);
+            return e;
+        }
+    };
+    let none: Sched = vec![];
+    let out = match do_read(&bytes, &none) {
+        Ok(o) => o,
+        Err(e) => {
+            ctx.violation("C38:read-crash", e.clone(), trace);
+            return e;
+        }
+    };
+    let g = match &out.result {
+        Ok(g) => g,
+        Err(e) => {
+            ctx.violation("C38:published-state-unreadable", format!("handle_connection output unreadable: {e}"), trace);
+            return format!("Err({e})");
+        }
+    };
+    let against = |m: &MState| {
+        let mut m2 = m.clone();
+        m2.version = g.program.version.clone();
+        m2.build_commit = g.program.build_commit.clone();
+        m2.build_commit_date = g.program.build_commit_date.clone();
+        compare(&m2, g, true, true)
+    };
+    let (bad_before, bad_after) = (against(&before), against(&after));
+    let verdict = if bad_before.is_empty() {
+        ctx.inc("lock_outcome_read_map_before_change");
+        "map-before-change"
+    } else if bad_after.is_empty() {
+        ctx.inc("lock_outcome_read_map_at_release");
+        "map-at-release"
+    } else {
+        let best = if bad_after.len() <= bad_before.len() { &bad_after } else { &bad_before };
+        let only_values = best.iter().all(|b| b.contains("units (") || b.contains("[float,"));
+        let class = if only_values { mismatch_class(best) } else { "C38:published-sources-not-a-snapshot" };
+        ctx.violation(
+            class,
+            format!(
+                "client served while a source task held the write lock of the snapshot map ({} sources before, {} at release; handler finished while locked: {finished_under_lock}) read {} sources; vs map at release: {}",
+                before.sources.len(),
+                after.sources.len(),
+                g.sources.len(),
+                best[..best.len().min(3)].join(" | ")
+            ),
+            trace,
+        );
+        "neither"
+    };
+    format!("sources before={} at-release={} read={} finished_under_lock={finished_under_lock} -> {verdict}", before.sources.len(), after.sources.len(), g.sources.len())
 }
 
 fn replay(ctx: &Ctx, trace: &str) -> String {
@@ -1189,7 +1346,8 @@ fn check() {
          x boundary mantissas. D: 16 announced lengths x 3 payload availabilities x every placement of <= 2 deviations on the header \
          reads. E: every placement of <= 2 deviations (Pending, short 1..7, half, all-but-one) on the first 6 read calls / 5 write calls \
          for 4 representative states. F: encodings of exactly 2^20-1, 2^20, 2^20+1, 2^20+2 bytes. G: every truncation point. H: \
-         observer::handle_connection for every shape. Distinct & non-trivial = a distinct case descriptor whose message reached the reader.",
+         observer::handle_connection for every shape, and for 1..=3 sources x 0..=2 servers x 2 fills x 3 writer variants while the \
+         harness holds the write lock of the source map (client must read the map as before the change or as at release). Distinct & non-trivial = a distinct case descriptor whose message reached the reader.",
     );
     ctx.assume("framing is an 8-byte length followed by the JSON text (needed only to know the encoded size of a state and to hand-craft oversize headers)");
     ctx.assume("NtpSnapshot::bloom_filter is #[serde(skip)]: it is not part of what the daemon publishes and is not compared");
@@ -1209,6 +1367,9 @@ fn check() {
     }
     cases.push(Case::Size(2));
     cases.push(Case::Len { announced: LIMIT + 1, avail: 0, sched: vec![] });
+    cases.push(Case::PublishLocked(1, 0, 0, 0));
+    cases.push(Case::PublishLocked(2, 1, 0, 1));
+    cases.push(Case::PublishLocked(2, 1, 0, 2));
     let seq = cases.len();
     for i in 0..nm {
         cases.push(Case::One(i));
@@ -1222,6 +1383,11 @@ fn check() {
                 cases.push(Case::Shape(a, b, p));
                 if p < 6 {
                     cases.push(Case::Publish(a, b, p));
+                }
+                if (1..=3).contains(&a) && b <= 2 && (p == 0 || p == 3) {
+                    for v in 0..3 {
+                        cases.push(Case::PublishLocked(a, b, p, v));
+                    }
                 }
             }
         }
@@ -1281,7 +1447,7 @@ fn check() {
                 Case::Chunk { .. } => "cases_E_chunked",
                 Case::Size(_) => "cases_F_size_boundary",
                 Case::Trunc { .. } => "cases_G_truncations",
-                Case::Publish(..) => "cases_H_publish",
+                Case::Publish(..) | Case::PublishLocked(..) => "cases_H_publish",
             });
             ctx.distinct(common::hash_of(&trace_of(c)));
             if i % 7919 == 3 {
@@ -1292,7 +1458,11 @@ fn check() {
     for c in &cases[..seq] {
         let obs = run_case(&ctx, &sh, c);
         ctx.inc("evaluations");
-        ctx.inc(if matches!(c, Case::Size(_)) { "cases_F_size_boundary" } else { "cases_D_lengths" });
+        ctx.inc(match c {
+            Case::Size(_) => "cases_F_size_boundary",
+            Case::PublishLocked(..) => "cases_H_publish",
+            _ => "cases_D_lengths",
+        });
         ctx.distinct(common::hash_of(&trace_of(c)));
         ctx.sample(format!("{} -> {}", trace_of(c), obs.chars().take(200).collect::<String>()));
     }
